@@ -145,7 +145,7 @@ def plugin_specs(ctx):
 
 
 REPLIES = [("normal", None), ("fault11", 500), ("fault12", None), ("empty", None), ("normal", 404), ("empty", 202),
-           ("malformed", None), ("normal", 500)]
+           ("malformed", None), ("normal", 500), ("empty", 500), ("empty", 404), ("fault11", None)]
 
 
 def run(ctx):
@@ -175,10 +175,13 @@ def run(ctx):
             data = c09.body_bytes(body, "wrapped")
             te = None
             if status is None:
-                reply = suds.transport.Reply(200, {}, data)
+                # (a reply a transport returns counts as a success whatever code the Reply object carries)
+                reply = suds.transport.Reply(rng.choice([200, 200, 202, 204, 500, 404]), {}, data)
             else:
                 import io
-                reply = suds.transport.TransportError("err", status, io.BytesIO(data))
+                # (an error without content: no file object at all, or an empty one)
+                reply = suds.transport.TransportError("err", status, None if not data and rng.random() < 0.5 else
+                                                      io.BytesIO(data))
             tr = wsdlkit.RecordingTransport(reply=reply)
             outcome = None
             ctor_log_len = 0
@@ -363,6 +366,32 @@ def doc_checks(ctx):
             if hooks != exp:
                 ctx.fail("document hooks with a %s cache" % ("cold" if round_ == 0 else "warm"), {"round": round_},
                          hooks, exp)
+        # what a parsed hook did to the tree it was handed is that client's: the cache keeps the document as fetched, so
+        # the hook of a later client over the warm cache gets the unedited document (and a client without plugins too)
+        d2 = tempfile.mkdtemp(prefix="verif-c16-")
+        try:
+            class Marking(suds.plugin.DocumentPlugin):
+                def __init__(self):
+                    self.found = []
+
+                def parsed(self, context):
+                    self.found.append([context.url, context.document.get("verifmark")])
+                    context.document.set("verifmark", "edited")
+            found = []
+            for round_ in (0, 1, 2):
+                mk = Marking()
+                store = suds.store.DocumentStore()
+                store.update({"main.wsdl": w, "inc.xsd": inc})
+                suds.client.Client("suds://main.wsdl", documentStore=store, plugins=[mk] if round_ != 1 else [],
+                                   cache=suds.cache.DocumentCache(location=d2), cachingpolicy=0)
+                found.append(mk.found)
+            ctx.case(("doc-cache-edits",), True)
+            exp = [[["suds://main.wsdl", None], ["suds://inc.xsd", None]], [], [["suds://main.wsdl", None], ["suds://inc.xsd", None]]]
+            if found != exp:
+                ctx.fail("document hooks with a warm cache: the parsed hook is handed a document an earlier client's hook "
+                         "had edited", {"stream": "doc-cache-edits"}, found, exp)
+        finally:
+            shutil.rmtree(d2, ignore_errors=True)
     finally:
         shutil.rmtree(d, ignore_errors=True)
     # warm OBJECT cache (cachingpolicy=1): the init stage runs for every client built, each with its own plugins, and
